@@ -119,6 +119,10 @@ def axioms_check(ctx, c, outs):
     if not set_eq(cart_ops(Lg.proper_subgroup), L[np.linalg.det(L) > 0]):
         return (f"proper subgroup of the Laue group of {c['name']} ('{Lg.proper_subgroup.name}') is not exactly the proper "
                 "operations of the Laue group")
+    if not set_eq(cart_ops(Lg.laue), L):
+        return f"the Laue group of the Laue group of {c['name']} ('{Lg.laue.name}') is not that Laue group itself"
+    if not set_eq(cart_ops(Lg.laue_proper_subgroup), L[np.linalg.det(L) > 0]):
+        return f"laue_proper_subgroup of the Laue group of {c['name']} is not its proper part"
     if not set_eq(cart_ops(G.laue_proper_subgroup), L[np.linalg.det(L) > 0]):
         return f"laue_proper_subgroup of {c['name']} ('{G.laue_proper_subgroup.name}') is not the proper part of its Laue group"
     for H in groups():
@@ -224,6 +228,14 @@ for j in order:
     ps = ops(G.proper_subgroup)
     if not (sub(ps, P) and sub(P, ps)):
         bad.append([kind, named[i].name, "proper_subgroup=" + str(G.proper_subgroup.name)])
+    LL = np.concatenate([M, -M])
+    lo = ops(G.laue)
+    if not (sub(lo, LL) and sub(LL, lo)):
+        bad.append([kind, named[i].name, "laue=" + str(G.laue.name)])
+    lp = ops(G.laue_proper_subgroup)
+    LP = LL[np.linalg.det(LL) > 0]
+    if not (sub(lp, LP) and sub(LP, lp)):
+        bad.append([kind, named[i].name, "laue_proper_subgroup=" + str(G.laue_proper_subgroup.name)])
     listed = set(h.name for h in G.subgroups)
     for H in named:
         if (H.name in listed) != sub(ops(H), M):
